@@ -116,7 +116,21 @@ def corpus():
 
 def gen_cases(rng, tier):
     n = {"quick": 250, "thorough": 2500, "search": 500}[tier]
-    return [_table(rng) for _ in range(n)]
+    cases = [_table(rng) for _ in range(n)]
+    # the same calls through the command line (`cnvkit.py call -m threshold -t=...` on a written .cns)
+    for _ in range({"quick": 16, "thorough": 160, "search": 16}[tier]):
+        c = _table(rng, 40)
+        i = c["in"]
+        keep = [k for k, lg in enumerate(i["log2_f"]) if lg is not None]  # a row without log2 is dropped by the reader
+        if not keep:
+            continue
+        i["rows"] = [i["rows"][k] for k in keep]
+        i["log2_f"] = [i["log2_f"][k] for k in keep]
+        i["cli"] = True
+        i["check_monotone"] = False
+        c["tag"] += "-cli"
+        cases.append(c)
+    return cases
 
 
 def nontrivial(case, impl, resp):
